@@ -88,7 +88,7 @@ func execC13(p *drv.Plan) *Out {
 
 // WriteImage writes a complete database image of the model's retained
 // versions in the pinned format with the independent encoder.
-func WriteImage(d *sim.SimDB, M *ref.VMap, T *ref.Tree, withFast bool) {
+func WriteImage(d *sim.SimDB, M *ref.VMap, T *ref.Tree, withFast bool, oldRefs bool) {
 	done := map[*ref.TNode]bool{}
 	skey := func(n *ref.TNode) []byte {
 		nonce := n.Nonce
@@ -124,7 +124,16 @@ func WriteImage(d *sim.SimDB, M *ref.VMap, T *ref.Tree, withFast bool) {
 			put(root)
 		default:
 			put(root)
-			d.RawSet(ref.SKey(v, 1), ref.RefRootValue(root.Ver, root.Nonce))
+			if oldRefs && root.Nonce == 1 {
+				// the short reference form (prefix + version) written before lazy
+				// pruning existed: it names the root (version, 1)
+				old := make([]byte, 9)
+				old[0] = 's'
+				binary.BigEndian.PutUint64(old[1:], uint64(root.Ver))
+				d.RawSet(ref.SKey(v, 1), old)
+			} else {
+				d.RawSet(ref.SKey(v, 1), ref.RefRootValue(root.Ver, root.Nonce))
+			}
 		}
 	}
 	if withFast && M.Latest > 0 {
@@ -147,8 +156,12 @@ func execC13b(p *drv.Plan) *Out {
 	M, T := r0.W.M, r0.W.T
 	r := drv.SubRand(p, "c13b")
 	withFast := r.Chance(1, 2)
+	oldRefs := r.Chance(1, 3)
 	img := sim.NewSimDB()
-	WriteImage(img, M, T, withFast)
+	WriteImage(img, M, T, withFast, oldRefs)
+	if oldRefs {
+		out.Probes["image.short-reference-roots"]++
+	}
 	w := drv.NewWorld(p.Config)
 	w.UseSim(img)
 	w.Fast = withFast || r.Chance(1, 3)
